@@ -29,6 +29,9 @@ type Case struct {
 	// Gens, if set, gives the row-class generator in force for each render: 0 none, 1 generator "r", 2 generator "s"
 	// (replaced, installed or removed between renders on the same wrapper); it overrides RowClass/Renders.
 	Gens []int `json:"gens,omitempty"`
+	// Names, if set: before render i the wrapper's TemplateName is set to Names[i] (the name is a label: changing it
+	// between renders changes nothing that is rendered)
+	Names []gen.Str `json:"names,omitempty"`
 	// CopyTo: after the renders, the wrapper struct is copied by value, the copy's Table is set to a table built
 	// from this second history, and the copy renders: it must show the second table.
 	CopyTo *gen.Script `json:"copy_to,omitempty"`
@@ -220,6 +223,9 @@ func CheckCase(c Case) *ev.Violation {
 	var prevOut string
 	prevGen := -1
 	for i, g := range gens {
+		if i < len(c.Names) {
+			w.TemplateName = string(c.Names[i])
+		}
 		prefix := ""
 		if g == 3 {
 			// a generator that blows up part-way: the render fails, and a failed Render returns no text
